@@ -211,7 +211,14 @@ def printPiece : Piece → Str
 
 def printPieces (ps : List Piece) : Str := ps.flatMap printPiece
 
-def printAttr (a : Attr) : Str := a.name.text ++ '=' :: escapeQ (printPieces a.vals)
+/-- an attribute value that holds both kinds of quote is written between double quotes with its
+    double quotes as `&quot;` -/
+def quoteAttr (v : Str) : Str :=
+  if v.contains '"' && v.contains '\'' then
+    '"' :: (v.flatMap fun c => if c == '"' then "&quot;".toList else [c]) ++ ['"']
+  else escapeQ v
+
+def printAttr (a : Attr) : Str := a.name.text ++ '=' :: quoteAttr (printPieces a.vals)
 
 def printPI (t : Str) (d : Option Str) : Str :=
   "<?".toList ++ t ++ (match d with | some x => ' ' :: x | none => []) ++ "?>".toList
